@@ -45,11 +45,13 @@ def main():
         return 2
     env = dict(os.environ, PYTHONPATH=f"{SHIM}:{wt}", TQDM_DISABLE="1")
     try:
-        rc, out = sh("/venv/bin/python -m pytest -q -p no:cacheprovider "
-                     "--timeout=900 --continue-on-collection-errors 2>&1 "
-                     "| tail -3", cwd=wt)
+        rc, out = sh("TQDM_DISABLE=1 /venv/bin/python -m pytest -q -p "
+                     "no:cacheprovider --timeout=900 "
+                     "--continue-on-collection-errors 2>&1 | tail -15",
+                     cwd=wt)
         m = re.search(r"(\d+) passed", out)
-        res["suite_with_patch"] = out.strip().splitlines()[-1]
+        summ = [l for l in out.splitlines() if " passed" in l]
+        res["suite_with_patch"] = (summ or out.strip().splitlines()[-1:])[-1]
         res["suite_passed"] = int(m.group(1)) if m else 0
         rc, out = sh(["/venv/bin/python", demo], cwd=wt, env=env)
         res["demo_with_patch_exit"] = rc
